@@ -661,7 +661,7 @@ pub fn orchestrate(prop: &dyn Property, tier: Tier) -> i32 {
                             sig: kind.to_string(),
                         });
                         start = idx + 1;
-                        if crashes > 25 {
+                        if crashes > if tier.quick() { 3 } else { 25 } {
                             // every crash is a recorded violation; give up on the rest of this
                             // shard (the run is reported as not exhaustive)
                             break;
